@@ -141,7 +141,11 @@ def extract(prog):
     g, consumer, loop = find_tokenizer(prog)
     tf = TokFacts()
     tf.func = g
-    en = Enumerator(prog, g, handler_paths=False)
+    from .dte import inline_helpers
+    en = Enumerator(prog, g, handler_paths=False, max_depth=4,
+                    inline=inline_helpers(
+                        prog, modules={PARSER}, classes=False,
+                        exclude={PARSER + '._parse_check'}))
     paths = en.run()
     tf.npaths = len(paths)
     mod = g.module
@@ -156,6 +160,11 @@ def extract(prog):
     if outer is None:
         raise AnalysisError('tokenizer has no top-level loop')
     it = outer.iter
+    # map(f, X) / filter(p, X) / list(X) ... walk the same pieces
+    while isinstance(it, ast.Call) and isinstance(it.func, ast.Name) and \
+            it.func.id in ('map', 'filter', 'list', 'tuple', 'iter') and \
+            it.args:
+        it = it.args[-1]
     tf.split = it
     mc = method_call(it)
     if mc and mc[1] == 'split':
